@@ -37,6 +37,8 @@ structure Tables where
   root : Nat                                      -- type of the visitor parseCypher pushes first (QueryVisitor)
   /-- (visitor type, rule): EnterOC_<rule> of a visitor other than BaseVisitor that unconditionally reports "rule is not supported" -/
   unsupM : List (Nat × Nat) := []
+  /-- (type, rule): `EnterOC_rule` of the type reports the rule as unsupported from its second occurrence on (per visitor instance) -/
+  unsupAfter : List (Nat × Nat) := []
 
 structure St where
   stack : List Frame      -- head = top of Context.visitorStack
@@ -71,8 +73,9 @@ def evalAtom (code : Nat × Nat) (kids : List Tree) : Bool :=
       | .err s => leafType s == (code.2 : Int)
       | .node _ _ => false)
   | 1 => kids.any (fun k => k.rootRule == some code.2)
-  | 2 => kids.any (fun k => match k with   -- newTokenLiteralIterator: only *antlr.TerminalNodeImpl children, TrimSpace'd text non-empty
-      | .leaf s => !(goBlank (leafText s))
+  | 2 => kids.any (fun k => match k with   -- newTokenLiteralIterator: only *antlr.TerminalNodeImpl children, TrimSpace'd text non-empty;
+      -- code.2 ≠ 0: terminals of that token type (SP: white space and comments) are skipped first (hooks/C07-fix6.patch)
+      | .leaf s => !(goBlank (leafText s)) && !(code.2 != 0 && leafType s == (code.2 : Int))
       | _ => false)
   | _ => false
 
